@@ -2,8 +2,20 @@
    ExtrOcamlBasic only: bool, option, list, prod, unit, sumbool are mapped to
    OCaml's own; nat, positive, N stay Coq inductives. No Extract Constant. *)
 From Coq Require Import Extraction ExtrOcamlBasic.
-From PegV Require Import Utf8 Pretty.
+From PegV Require Import Utf8 State Terminals Syntax Fields Literals Model Hooks Pretty Extracted.
 Extraction Language OCaml.
+
+Definition m_parse_std :=
+  m_parse Hooks.ustate Extracted.scfg_run Extracted.tcfg_run Extracted.fcfg_run Extracted.rcfg_run Hooks.std_hooks.
+Definition get_fields_std := get_fields Extracted.fcfg_run.
+Definition pretty_exec := Pretty.from_parse_error Extracted.pretty_run.
+
 Extraction "model.ml"
-  Pretty.from_parse_error Pretty.pretty_spec Pretty.cfg_fixed Pretty.cfg_original
-  Utf8.decode_str Utf8.encode_str.
+  pretty_exec Pretty.pretty_spec
+  Utf8.decode_str Utf8.encode_str
+  m_parse_std get_fields_std Hooks.u_init Model.gf_fuel
+  Terminals.parse_char Terminals.parse_Whitespace Terminals.parse_string_literal
+  Terminals.parse_character_literal Terminals.parse_character_range
+  Terminals.parse_string_literal_insensitive Terminals.parse_character_literal_insensitive
+  Terminals.parse_end_of_input State.init_state
+  Extracted.scfg_run Extracted.tcfg_run Extracted.fcfg_run Extracted.rcfg_run.
